@@ -161,6 +161,63 @@ theorem masked_tag_refused (c : Ctx) (a : Actor) (isL isN : Char → Bool) (mask
   · rename_i h; exact absurd h hreq
   · rfl
 
+/-! ### the tags of an account ({set tags} on `me`) -/
+
+/-- a change of an account's tags which adds or removes a tag of an immutable namespace is refused: 403, no store call, nothing
+changes -/
+theorem account_tags_immutable_refused (c : Ctx) (a : Actor) (src : List String) (t : Topic) (tags : List String)
+    (hatt : c.w.attached a.sid a.uid = true) (hl : c.w.live? a.uid = some t)
+    (hn : normTags src = some tags) (hi : immutableSame t.tags tags = false) :
+    c.opSetTagsMe a src = c.emit a.sid (ctrl 403 a.uid) := by
+  unfold Ctx.opSetTagsMe
+  simp [hatt, hl, hn, hi]
+
+/-- only a session attached to the account's own `me` sets its tags -/
+theorem account_tags_need_attachment (c : Ctx) (a : Actor) (src : List String) (hatt : c.w.attached a.sid a.uid = false) :
+    c.opSetTagsMe a src = c.emit a.sid (ctrl 403 a.uid) := by
+  unfold Ctx.opSetTagsMe
+  simp [hatt]
+
+/-- an accepted change stores the normalised list - for the account which asked and for no other -, and that list is what the search
+matches from then on (`found_iff` reads `User.tags`) -/
+theorem account_tags_stored_normalised (c : Ctx) (a : Actor) (src : List String) (t : Topic) (tags : List String)
+    (hatt : c.w.attached a.sid a.uid = true) (hl : c.w.live? a.uid = some t)
+    (hn : normTags src = some tags) (hi : immutableSame t.tags tags = true)
+    (hch : ¬((tags.filter (fun x => !t.tags.contains x)).length = 0 ∧ (t.tags.filter (fun x => !tags.contains x)).length = 0))
+    (hok : (c.call "UserUpdate").2 = true) :
+    ∀ x ∈ (c.opSetTagsMe a src).w.users, (x.uid = a.uid → x.tags = tags) ∧
+      (x.uid ≠ a.uid → ∃ y ∈ c.w.users, y.uid = x.uid ∧ y.tags = x.tags) := by
+  have hcall : ∀ eff : World → World, (c.call "UserUpdate" eff).2 = true ∧ (c.call "UserUpdate" eff).1.w = eff c.w := by
+    intro eff
+    unfold Ctx.call at hok ⊢
+    by_cases hf : c.failK ≠ 0 ∧ c.callNo + 1 = c.failK
+    · simp [hf] at hok
+    · simp only [hf, if_false]
+      refine ⟨trivial, ?_⟩
+      split <;> rfl
+  intro x hx
+  unfold Ctx.opSetTagsMe at hx
+  simp only [hatt, Bool.not_true, Bool.false_eq_true, if_false, hl, hn, hi, hch] at hx
+  generalize heff : (fun (w : World) => { w with users := w.users.map (fun (x : User) => if x.uid = a.uid then { x with tags := tags } else x) }) = eff at hx
+  obtain ⟨h1, h2⟩ := hcall eff
+  generalize hc' : c.call "UserUpdate" eff = r at hx h1 h2
+  obtain ⟨c', ok⟩ := r
+  simp only at h1 h2
+  subst h1
+  simp only [Bool.not_true, Bool.false_eq_true, if_false] at hx
+  have hw : ∀ (cc : Ctx) (tt : Topic) (s : Sid) (f : String), ((cc.emit s f).putLive tt).w.users = cc.w.users := by
+    intro cc tt s f; rfl
+  rw [hw] at hx
+  have hpo : ∀ (cc : Ctx) (tt : Topic) (p : PresMsg), (cc.presOnline tt p).w.users = cc.w.users := by
+    intro cc tt p; unfold Ctx.presOnline; rfl
+  rw [hpo, h2, ← heff] at hx
+  simp only [List.mem_map] at hx
+  obtain ⟨y, hy, rfl⟩ := hx
+  by_cases hu : y.uid = a.uid
+  · simp [hu]
+  · rw [if_neg hu]
+    exact ⟨fun h => absurd h hu, fun _ => ⟨y, hy, rfl, rfl⟩⟩
+
 example : matchTags ["flowers", "music", "a1"] [["music"], ["travel"]] [] = none := by decide
 example : matchTags ["music", "travel", "b2"] [["music"], ["travel"]] [] = some ["music", "travel"] := by decide
 example : matchTags ["flowers", "music", "a1"] [["a1"]] ["b2", "music"] = some ["music", "a1"] := by decide
